@@ -111,6 +111,32 @@ def reader_shape(ctx, rule):
             unchecked.append(ctx.site(body, bi, si))
     ctx.check(not unchecked, rule, fn, "no-unchecked-shl", "no unchecked << in the reader", detail=str(unchecked))
 
+    # every digit goes through the checked shift and advances the shift: no path through one
+    # iteration of the digit loop avoids them (except the foreign-byte rejection)
+    heads = [bi for bi, t in q.calls_to(body, "Iterator::next")]
+    if ctx.check(len(heads) == 1 and len(shl) == 1, rule, fn, "digit-loop", "one digit loop with one checked shift"):
+        head = heads[0]
+        entry = body.defs[enc][0][0]
+        errs_ = set(result_blocks(body, "Err")) | set(residual_blocks(body))
+        steps = [s_[0] for s_ in q.def_shapes(body, shift, roles) if s_[0] == "Add(5,shift)"]
+        step_blocks = [site[0] for sh_, site, _ in q.def_shapes(body, shift, roles) if sh_ == "Add(5,shift)"]
+
+        def every_path(through):
+            seen = {entry}
+            stack = [entry]
+            while stack:
+                x = stack.pop()
+                for nx in body.succ[x]:
+                    if nx in through or nx in errs_:
+                        continue
+                    if nx == head:
+                        return False
+                    if nx not in seen:
+                        seen.add(nx)
+                        stack.append(nx)
+            return True
+        ctx.check(every_path({shl[0][0]}), rule, fn, "checked_shl:every-digit", "every digit (zero payload included) passes the checked shift, so a 14th digit always overflows", ctx.site(body, shl[0][0]))
+        ctx.check(bool(step_blocks) and every_path(set(step_blocks)), rule, fn, "shift:every-digit", "the shift advances by 5 for every digit")
     # continuation test: push dominated by Shr(enc,5) == 0
     pb = push[0]
     cont_ok = has_fact(body, pb, roles, ("Eq", "0", "Shr(enc,5)"), ("Eq", "0", "BitAnd(32,enc)"), ("Eq", "0", "Div(enc,32)"))
